@@ -157,7 +157,8 @@ func (p *c07) checkChunkFault(sc *runner.Scenario, w *world, pristine map[string
 
 func (p *c07) checkAttachmentFault(sc *runner.Scenario, w *world, pristine []*model.Rec, ai int, f scen.Fault, st *runner.Stats, pin string) *runner.Violation {
 	img := simdisk.Apply(w.image, f)
-	spec := drive.LexSpec{Validate: true, AttachCB: true, ComputeCRC: true, MaxTokens: 200000}
+	// the callback asks for the two CRCs in either order (alternating with the bit)
+	spec := drive.LexSpec{Validate: true, AttachCB: true, ComputeCRC: true, MaxTokens: 200000, ParsedFirst: f.Bit%2 == 1}
 	st.Doing(&f, fmt.Sprintf("attachment:%d", ai))
 	lr := drive.LexAll(simdisk.NewSource(img, scen.Delivery{Kind: "full"}, nil), spec)
 	st.Evaluations++
